@@ -237,6 +237,7 @@ func runC14(c *Ctx) {
 	}
 	c14Paths(c)
 	c14BlockPaths(c)
+	c14AllTypes(c)
 }
 
 func c14GenCol(r *Rng, rows int) (proto.ColInput, string) {
@@ -286,6 +287,85 @@ func c14GenCol(r *Rng, rows int) (proto.ColInput, string) {
 }
 
 // Block.WriteBlock + Flush == Block.EncodeBlock, incl. zero-row blocks with several columns
+// the two encoding paths on columns of every type of the C01 generator (incl. long strings, wide LowCardinality
+// dictionaries, nested compositions): WriteColumn + Flush and WriteBlock + Flush against EncodeColumn / EncodeBlock
+func c14AllTypes(c *Ctx) {
+	R := c.R
+	r := c.Rng
+	check := func(label string, cols []blockCol, rows int) {
+		for _, bc := range cols {
+			a, e1 := libraryEncode(bc.col, "buffer")
+			b, e2 := libraryEncode(bc.col, "write")
+			R.Case("paths|"+label+"|"+bc.t.CH+"|"+hx(a), rows > 0)
+			R.Count("paths:all-types")
+			if e1 != nil || e2 != nil || !bytes.Equal(a, b) {
+				R.Violate(Violation{Kind: "oracle", Key: "writecolumn-vs-encodecolumn", What: fmt.Sprintf("WriteColumn+Flush differs from EncodeColumn for %s (errs %v %v): %s", bc.t.CH, e1, e2, diffHex(hx(a), hx(b))),
+					Case: map[string]any{"kind": "column-path-equivalence", "type": bc.t.CH, "rows": rows, "contents": trunc(bc.cn.ModelCol(), 600)}})
+				return
+			}
+		}
+		blk := proto.Block{Columns: len(cols), Rows: rows, Info: proto.BlockInfo{BucketNum: -1}}
+		var eb proto.Buffer
+		err1 := blk.EncodeBlock(&eb, 54460, inputOf(cols))
+		sink := &c14Sink{}
+		w := proto.NewWriter(sink, new(proto.Buffer))
+		err2 := blk.WriteBlock(w, 54460, inputOf(cols))
+		_, err3 := w.Flush()
+		if err1 != nil || err2 != nil || err3 != nil || !bytes.Equal(sink.got, eb.Buf) {
+			R.Violate(Violation{Kind: "oracle", Key: "writeblock-vs-encodeblock", What: fmt.Sprintf("WriteBlock+Flush differs from EncodeBlock (errs %v %v %v): %s", err1, err2, err3, diffHex(hx(eb.Buf), hx(sink.got))),
+				Case: map[string]any{"kind": "block-path-equivalence", "columns": typeNamesOf(cols), "rows": rows}})
+		}
+	}
+	n := 150
+	if c.Thorough {
+		n = 4000
+	}
+	for i := 0; i < n; i++ {
+		rows := []int{0, 1, 2, 5, 40, 300}[r.Intn(6)]
+		cols, err := buildCols(r, 1+r.Intn(3), rows, genOpts{bigStrings: true}, func() *TNode { return genType(r) })
+		if err != nil {
+			continue
+		}
+		check("random", cols, rows)
+	}
+	// strings around and beyond page size, long ones followed by short ones
+	for _, lens := range [][]int{{5000, 1}, {4096, 4096, 3}, {4095, 4096, 4097}, {1, 70000, 0, 200}, {8192, 127, 128, 16384}} {
+		for _, wrap := range []string{"String", "Array(String)", "Nullable(String)"} {
+			t, _ := parseCH(wrap)
+			var vals []string
+			for _, k := range lens {
+				vals = append(vals, string(r.Bytes(k)))
+			}
+			inner := strCol(vals...)
+			var cn *CNode
+			switch wrap {
+			case "String":
+				cn = inner
+				cn.T = t
+			case "Array(String)":
+				inner.T = t.Sub[0]
+				cn = &CNode{T: t, Offs: []uint64{uint64(len(vals))}, Sub: []*CNode{inner}}
+			default:
+				inner.T = t.Sub[0]
+				cn = &CNode{T: t, Nulls: make([]byte, len(vals)), Sub: []*CNode{inner}}
+			}
+			col, err := newColumn(t)
+			if err != nil || fillColumn(col, cn) != nil {
+				continue
+			}
+			check("long-strings", []blockCol{{name: "c0", t: t, cn: cn, col: col}}, cn.NRows())
+		}
+	}
+}
+
+func typeNamesOf(cols []blockCol) []string {
+	var out []string
+	for _, bc := range cols {
+		out = append(out, bc.t.CH)
+	}
+	return out
+}
+
 func c14BlockPaths(c *Ctx) {
 	R := c.R
 	r := c.Rng
